@@ -67,6 +67,7 @@ for nw, tier, to in ((2, "quick", 600), (3, "thorough", 3000), (4, "thorough", 3
     add("scan_nw%d" % nw, "h_scan.c", "h_scan", {"C14": tier}, defines=["-DNW=%d" % nw],
         cbmc=["--unwind", "70", "--unwindset", "scan.0:34,scan.1:2,scan.2:%d" % (nw + 2)], backend="kissat",
         timeout=to, mem_gb=8, ignore_unwind=["scan.unwind.1"], functions=SCAN_FUNCS,
+        witnesses=["scan_found", "scan_more", "scan_found_straddling_live_and_words"] + (["scan_found_after_skip"] if nw >= 4 else []),
         bounds="bit stream of <=32 live bits + %d symbolic 32-bit words, any skip; the `goto again` edge of scan() is unwound "
                "once: a second traversal is impossible by lemma dfa_big (big_dfa = 8 x mini_dfa with absorbing accept), which is "
                "discharged in the same run, so its unwinding assertion is replaced by that lemma" % nw,
